@@ -1308,7 +1308,8 @@ def literal_texts(init, out):
 
 SABA_INLINE = {"reb_integrator_saba_synchronize", "reb_saba_stages", "reb_saba_corrector_step", "reb_integrator_whfast_init"}
 WH_INLINE = {"reb_integrator_whfast_init", "reb_integrator_whfast_synchronize", "reb_whfast_apply_corrector", "reb_whfast_apply_corrector2",
-             "reb_whfast_corrector_Z", "reb_whfast_operator_C", "reb_whfast_operator_Y", "reb_whfast_operator_U"}
+             "reb_whfast_corrector_Z", "reb_whfast_operator_C", "reb_whfast_operator_Y", "reb_whfast_operator_U",
+             "reb_whfast_operator_Uinv"}      # (the last one exists only once fixes/C01-corrector2-inverse.diff is applied)
 EOS_INLINE = {"reb_integrator_eos_preprocessor", "reb_integrator_eos_postprocessor", "reb_integrator_eos_synchronize"}
 JANUS_INLINE = {"gg", "reb_integrator_janus_synchronize"}
 
@@ -1575,6 +1576,11 @@ def emit_lean(D):
     c2p, c2m = base1[:k2], base1[len(base1) - k2:]
     if base1[k2:len(base1) - k2] != base0:
         raise ExtractError("whfast: corrector2 blocks are not a prefix/suffix of the step")
+    moves = lambda l: [(k, a, b) for k, a, b in l if k != K_FORCE]
+    c2inv = moves(c2m) == [(k, -a, b) for k, a, b in reversed(moves(c2p))]
+    s += "/-- does reb_whfast_apply_corrector2(r, -1.) apply the operators of reb_whfast_apply_corrector2(r, 1.) in reverse order with\n"
+    s += "    negated coefficients?  (false on the tree with finding F18; the Lean side re-derives this flag) -/\n"
+    s += "def whCorr2IsInverse : Bool := %s\n" % ("true" if c2inv else "false")
     s += "def whCorr2_p : List Op :=\n  %s\n" % lops(c2p)
     s += "def whCorr2_m : List Op :=\n  %s\n" % lops(c2m)
     cores = {}
